@@ -1,4 +1,4 @@
-"""pyxel/util/misc.py get_dtype -> Gallina band table."""
+"""pyxel/util/misc.py get_dtype -> Gallina band table; the three detector-level converter models -> wiring records."""
 from __future__ import annotations
 
 import ast
@@ -45,11 +45,218 @@ def translate(repo: Path) -> str:
     return (HEADER +
             "From Coq Require Import ZArith List.\nFrom PyxelV Require Import Model.Adc.\n"
             "Import ListNotations.\nOpen Scope Z_scope.\n"
-            f"Definition src_dtype_chain : dtype_chain := [{rows}].\n")
+            f"Definition src_dtype_chain : dtype_chain := [{rows}].\n"
+            + wrappers(repo))
+
+
+# ------------------------------------------------------------------------------------------ detector-level models
+# simple_adc / sar_adc / sar_adc_with_noise: which detector attribute feeds which argument of the converter.
+# Accepted statement shapes (anything else fails closed):
+#   name [: T] = <expr>                      (binds a name to a source)
+#   a, b = detector.characteristics.adc_voltage_range        (`_` allowed)
+#   if data_type: <np.dtype(data_type) with guards> else: name = get_dtype(<bits>)      (simple_adc only)
+#   if len(strengths|noises) != <bits>: raise ValueError(...)                            (noisy variant only)
+#   detector.image.array = <converter call | name bound to it>                          (must be the last statement)
+
+DET_ATTRS = {
+    "characteristics.adc_bit_resolution": "FromBits",
+    "signal.array": "FromSignal",
+    "geometry.row": "FromRows",
+    "geometry.col": "FromCols",
+}
+
+
+def _resolve(node, env, det, params):
+    """Symbolic source of an expression."""
+    if isinstance(node, ast.Name):
+        return env.get(node.id, "FromOther")
+    txt = ast.unparse(node)
+    for k, v in DET_ATTRS.items():
+        if txt == f"{det}.{k}":
+            return v
+    # np.asarray(strengths, dtype=float) / np.array(strengths, dtype=float) / np.asarray(strengths)
+    if (isinstance(node, ast.Call) and ast.unparse(node.func) in ("np.asarray", "np.array", "numpy.asarray", "numpy.array")
+            and len(node.args) == 1 and isinstance(node.args[0], ast.Name) and node.args[0].id in params
+            and all(k.arg == "dtype" and ast.unparse(k.value) in ("float", "np.float64", "numpy.float64") for k in node.keywords)):
+        return {"strengths": "FromStrengths", "noises": "FromNoises"}.get(node.args[0].id, "FromOther")
+    return "FromOther"
+
+
+def _call_args(call, sig):
+    """keyword -> expression of a converter call (positional arguments follow the converter's signature)."""
+    out = {}
+    if len(call.args) > len(sig):
+        fail(call, "too many positional arguments")
+    for name, a in zip(sig, call.args):
+        if isinstance(a, ast.Starred):
+            fail(call, "starred argument")
+        out[name] = a
+    for k in call.keywords:
+        if k.arg is None or k.arg in out:
+            fail(call, "unexpected keyword")
+        out[k.arg] = k.value
+    return out
+
+
+def _wrapper(tree, fname, apply_name, want):
+    fn = find_func(tree, fname)
+    ap = find_func(tree, apply_name)
+    sig = [a.arg for a in ap.args.args]
+    if sorted(sig) != sorted(want):
+        fail(ap, f"{apply_name} signature {sig}")
+    pars = [a.arg for a in fn.args.args]
+    if not pars:
+        fail(fn, "no detector parameter")
+    det, params = pars[0], set(pars[1:])
+    env, guards, dtype_rule, stored, call_of = {}, set(), {}, None, {}
+    body = body_no_doc(fn)
+    for k, st in enumerate(body):
+        if stored is not None:
+            fail(st, "statement after the image was stored")
+        if isinstance(st, ast.AnnAssign) and st.value is not None and isinstance(st.target, ast.Name):
+            tgt, val = st.target, st.value
+        elif isinstance(st, ast.Assign) and len(st.targets) == 1:
+            tgt, val = st.targets[0], st.value
+        elif isinstance(st, ast.If):
+            t = st.test
+            # length guards of the noisy variant
+            if (isinstance(t, ast.Compare) and len(t.ops) == 1 and isinstance(t.ops[0], ast.NotEq)
+                    and isinstance(t.left, ast.Call) and ast.unparse(t.left.func) == "len" and len(t.left.args) == 1
+                    and isinstance(t.left.args[0], ast.Name) and t.left.args[0].id in params
+                    and _resolve(t.comparators[0], env, det, params) == "FromBits"
+                    and len(st.body) == 1 and isinstance(st.body[0], ast.Raise) and not st.orelse
+                    and isinstance(st.body[0].exc, ast.Call) and ast.unparse(st.body[0].exc.func) == "ValueError"):
+                guards.add(t.left.args[0].id)
+                continue
+            # data_type override
+            is_dt = ((isinstance(t, ast.Name) and t.id in params) or
+                     (isinstance(t, ast.Compare) and len(t.ops) == 1 and isinstance(t.ops[0], ast.IsNot)
+                      and isinstance(t.left, ast.Name) and t.left.id in params
+                      and isinstance(t.comparators[0], ast.Constant) and t.comparators[0].value is None))
+            if is_dt and len(st.orelse) == 1:
+                dtp = t.id if isinstance(t, ast.Name) else t.left.id
+                e = st.orelse[0]
+                ev = e.value if isinstance(e, (ast.Assign, ast.AnnAssign)) else None
+                et = (e.targets[0] if isinstance(e, ast.Assign) and len(e.targets) == 1 else
+                      e.target if isinstance(e, ast.AnnAssign) else None)
+                if not (isinstance(et, ast.Name) and isinstance(ev, ast.Call) and ast.unparse(ev.func) in ("get_dtype", "pyxel.util.get_dtype")
+                        and len(ev.args) + len(ev.keywords) == 1):
+                    fail(e, "else branch must be `name = get_dtype(bits)`")
+                barg = ev.args[0] if ev.args else ev.keywords[0].value
+                # the if-branch must bind the same name from np.dtype(data_type) and may only raise besides
+                binds = [n for n in ast.walk(ast.Module(body=st.body, type_ignores=[]))
+                         if isinstance(n, (ast.Assign, ast.AnnAssign))]
+                ok = False
+                for n in binds:
+                    nt = n.targets[0] if isinstance(n, ast.Assign) and len(n.targets) == 1 else getattr(n, "target", None)
+                    if not (isinstance(nt, ast.Name) and nt.id == et.id):
+                        fail(n, "override branch binds another name")
+                    v = n.value
+                    if not (isinstance(v, ast.Call) and ast.unparse(v.func) in ("np.dtype", "numpy.dtype") and len(v.args) == 1
+                            and isinstance(v.args[0], ast.Name) and v.args[0].id == dtp and not v.keywords):
+                        fail(n, "override branch must bind np.dtype(data_type)")
+                    ok = True
+                for n in ast.walk(ast.Module(body=st.body, type_ignores=[])):
+                    if isinstance(n, (ast.Return, ast.Delete, ast.AugAssign, ast.For, ast.While, ast.With, ast.Global)):
+                        fail(n, "unexpected statement in the override branch")
+                if not ok:
+                    fail(st, "override branch does not bind the dtype")
+                env[et.id] = "DTYPE"
+                dtype_rule[et.id] = f"DtOverrideElseGetDtypeOf {_resolve(barg, env, det, params)}"
+                continue
+            fail(st, "unexpected if statement")
+        else:
+            fail(st, "unexpected statement")
+        # assignments
+        if isinstance(tgt, ast.Tuple):
+            if not (len(tgt.elts) == 2 and all(isinstance(e, ast.Name) for e in tgt.elts)
+                    and ast.unparse(val) == f"{det}.characteristics.adc_voltage_range"):
+                fail(st, "tuple assignment must unpack adc_voltage_range into two names")
+            env[tgt.elts[0].id], env[tgt.elts[1].id] = "FromRangeLo", "FromRangeHi"
+        elif isinstance(tgt, ast.Name):
+            if isinstance(val, ast.Call) and ast.unparse(val.func) == apply_name:
+                call_of[tgt.id] = val
+                env[tgt.id] = "CALL"
+            elif isinstance(val, ast.Call) and ast.unparse(val.func) in ("get_dtype", "pyxel.util.get_dtype") \
+                    and len(val.args) + len(val.keywords) == 1:
+                barg = val.args[0] if val.args else val.keywords[0].value
+                env[tgt.id] = "DTYPE"
+                dtype_rule[tgt.id] = f"DtGetDtypeOf {_resolve(barg, env, det, params)}"
+            else:
+                env[tgt.id] = _resolve(val, env, det, params)
+        elif isinstance(tgt, ast.Attribute) and ast.unparse(tgt) == f"{det}.image.array":
+            if isinstance(val, ast.Call) and ast.unparse(val.func) == apply_name:
+                stored = val
+            elif isinstance(val, ast.Name) and val.id in call_of:
+                stored = call_of[val.id]
+            else:
+                fail(st, "detector.image.array must receive the converter's result unchanged")
+        else:
+            fail(st, "unexpected assignment target")
+    if stored is None:
+        fail(fn, "detector.image.array is never assigned")
+    args = _call_args(stored, sig)
+    if sorted(args) != sorted(want):
+        fail(stored, f"converter called with arguments {sorted(args)}")
+    res = {}
+    for k, v in args.items():
+        if isinstance(v, ast.Name) and env.get(v.id) == "DTYPE":
+            res[k] = dtype_rule[v.id]
+        elif isinstance(v, ast.Call) and ast.unparse(v.func) in ("get_dtype", "pyxel.util.get_dtype") \
+                and len(v.args) + len(v.keywords) == 1:
+            barg = v.args[0] if v.args else v.keywords[0].value
+            res[k] = f"DtGetDtypeOf {_resolve(barg, env, det, params)}"
+        else:
+            r = _resolve(v, env, det, params)
+            res[k] = r if r not in ("DTYPE", "CALL") else "FromOther"
+    return res, guards
+
+
+def _b(x):
+    return "true" if x else "false"
+
+
+def _dt(x):
+    return f"({x})" if x.startswith("Dt") else "DtOther"
+
+
+def _s(x):
+    return "FromOther" if x.startswith("Dt") else x
+
+
+def wrappers(repo: Path) -> str:
+    base = "pyxel/models/readout_electronics/"
+    a, _ = _wrapper(parse(repo, base + "simple_adc.py"), "simple_adc", "apply_simple_adc",
+                    ["signal", "bit_resolution", "voltage_min", "voltage_max", "dtype"])
+    b, _ = _wrapper(parse(repo, base + "sar_adc.py"), "sar_adc", "apply_sar_adc",
+                    ["signal_2d", "num_rows", "num_cols", "min_volt", "max_volt", "adc_bits"])
+    c, g = _wrapper(parse(repo, base + "sar_adc_with_noise.py"), "sar_adc_with_noise", "apply_sar_adc_with_noise",
+                    ["signal_2d", "num_rows", "num_cols", "strengths", "noises", "max_volt", "adc_bits"])
+    return (
+        f"Definition src_simple_wiring : simple_wiring := {{| sw_signal := {_s(a['signal'])}; sw_bits := {_s(a['bit_resolution'])}; "
+        f"sw_vmin := {_s(a['voltage_min'])}; sw_vmax := {_s(a['voltage_max'])}; sw_dtype := {_dt(a['dtype'])}; "
+        f"sw_store_image := true |}}.\n"
+        f"Definition src_sar_wiring : sar_wiring := {{| rw_signal := {_s(b['signal_2d'])}; rw_rows := {_s(b['num_rows'])}; "
+        f"rw_cols := {_s(b['num_cols'])}; rw_vmin := {_s(b['min_volt'])}; rw_vmax := {_s(b['max_volt'])}; "
+        f"rw_bits := {_s(b['adc_bits'])}; rw_store_image := true |}}.\n"
+        f"Definition src_sar0_wiring : sar0_wiring := {{| nw_signal := {_s(c['signal_2d'])}; nw_rows := {_s(c['num_rows'])}; "
+        f"nw_cols := {_s(c['num_cols'])}; nw_strengths := {_s(c['strengths'])}; nw_noises := {_s(c['noises'])}; "
+        f"nw_vmax := {_s(c['max_volt'])}; nw_bits := {_s(c['adc_bits'])}; "
+        f"nw_guard_strengths := {_b('strengths' in g)}; nw_guard_noises := {_b('noises' in g)}; nw_store_image := true |}}.\n")
+
 
 # the last accepted shape; used only to keep a model available for the failing-input search when
 # the translation itself fails (the failed translation is already a broken obligation)
 FALLBACK = (HEADER +
             "From Coq Require Import ZArith List.\nFrom PyxelV Require Import Model.Adc.\n"
             "Import ListNotations.\nOpen Scope Z_scope.\n"
-            "Definition src_dtype_chain : dtype_chain := [(1, 8, 8); (9, 16, 16); (17, 32, 32); (33, 64, 64)].\n")
+            "Definition src_dtype_chain : dtype_chain := [(1, 8, 8); (9, 16, 16); (17, 32, 32); (33, 64, 64)].\n"
+            "Definition src_simple_wiring : simple_wiring := {| sw_signal := FromSignal; sw_bits := FromBits; "
+            "sw_vmin := FromRangeLo; sw_vmax := FromRangeHi; sw_dtype := (DtOverrideElseGetDtypeOf FromBits); "
+            "sw_store_image := true |}.\n"
+            "Definition src_sar_wiring : sar_wiring := {| rw_signal := FromSignal; rw_rows := FromRows; "
+            "rw_cols := FromCols; rw_vmin := FromRangeLo; rw_vmax := FromRangeHi; rw_bits := FromBits; "
+            "rw_store_image := true |}.\n"
+            "Definition src_sar0_wiring : sar0_wiring := {| nw_signal := FromSignal; nw_rows := FromRows; "
+            "nw_cols := FromCols; nw_strengths := FromStrengths; nw_noises := FromNoises; nw_vmax := FromRangeHi; "
+            "nw_bits := FromBits; nw_guard_strengths := true; nw_guard_noises := true; nw_store_image := true |}.\n")
